@@ -74,6 +74,10 @@ type mutationMap struct {
 	// while populating, must then outlive the commit.
 	partial bool
 
+	// resumed is whether an earlier, partial indexing of the blob was
+	// already committed (and added to the corpus): this pass completes it.
+	resumed bool
+
 	// We record if we get a delete claim, so we can update
 	// the deletes cache right after committing the mutation.
 	//
@@ -233,6 +237,7 @@ func (ix *Index) ReceiveBlob(ctx context.Context, blobRef blob.Ref, source io.Re
 	// always index it. This is generally only useful when working
 	// on the indexing code and retroactively indexing a subset of
 	// content without forcing a global reindexing.
+	resumed := false
 	if haveVal, haveErr := ix.s.Get("have:" + blobRef.String()); haveErr == nil {
 		if strings.HasSuffix(haveVal, "|indexed") {
 			if allowReindex, _ := strconv.ParseBool(os.Getenv("CAMLI_REDO_INDEX_ON_RECEIVE")); allowReindex {
@@ -245,6 +250,9 @@ func (ix *Index) ReceiveBlob(ctx context.Context, blobRef blob.Ref, source io.Re
 				}
 				return sbr, nil
 			}
+		} else {
+			// committed before, but only partially
+			resumed = true
 		}
 	}
 
@@ -293,6 +301,7 @@ func (ix *Index) ReceiveBlob(ctx context.Context, blobRef blob.Ref, source io.Re
 		return blob.SizedRef{}, err
 	}
 
+	mm.resumed = resumed
 	if c := ix.corpus; c != nil {
 		if err := c.addBlob(ctx, blobRef, mm); err != nil {
 			return blob.SizedRef{}, err
